@@ -138,8 +138,23 @@ def chunks(tier, props, seed=0):
         for b in range(nb):
             if offs[b] < len(text) and (offs[b] == 0 or text[offs[b] - 1] == "\n"):
                 inserts.append(dict(prog=name, b=b, op="insert", lens=list(lens[:3]), sp=["\n"]))
+    for name in progs:
+        nb = len(boundaries(name))
+        step = (8 if name == "zoo.c" else 3) if tier == "quick" else 1
+        for b in range(1, nb - 1, step):
+            inserts.append(dict(prog=name, b=b, op="replace", lens=list(lens)))
     random.Random(seed).shuffle(inserts)
-    return first + inserts
+    junk = []
+    for name in progs:
+        for g in range(0, len(JUNK), 6):
+            junk.append(dict(prog=name, b=0, op="junkline", group=g))
+    return first + junk + inserts
+
+
+# lines that cannot be (the beginning of) any C statement or declaration: closers, separators, binary-only operators,
+# member selectors, unmatched / malformed lexemes
+JUNK = [")", "]", ",", "/", "%", "=", "==", "!=", "<", ">", "<=", ">=", "?", ":", ".", "->", "^", "|", "||", "+=", "),", ") )",
+        "] ;", ", a", "= 1;", "? a : b;", ": a;", ". a;", "-> a;", "/ 2;", ")\t", "@", "$", "`", "0x", "1a", "##", ">>=", "...", "%:%:"]
 
 
 # ---------------------------------------------------------------------------------------------- monitors
@@ -210,10 +225,21 @@ def c07_violations(o, debug=0):
     return v
 
 
-def analyse(name, text, props, out, ref_snapshot=None):
+def junk_class(frag):
+    t = frag.split()[0] if frag.split() else frag
+    if t in (")", "]"):
+        return "closer"
+    if t in ("@", "$", "`", "0x", "1a", "##", "%:%:"):
+        return "bad-lexeme"
+    if t in (",", ":", "?", ".", "->", "..."):
+        return "separator"
+    return "binary-operator"
+
+
+def analyse(name, text, props, out, ref_snapshot=None, junk=None):
     lim0 = sys.getrecursionlimit()
     try:
-        o = P.run_text(name, text, monitor=("C07" in props))
+        o = P.run_text(name, text, monitor=("C07" in props or junk is not None))
     finally:
         lim1 = sys.getrecursionlimit()
         if lim1 != lim0:
@@ -225,6 +251,16 @@ def analyse(name, text, props, out, ref_snapshot=None):
     if "C07" in props:
         for fp, what in c07_violations(o):
             out("C07", fp, what)
+    if "C07" in props and junk is not None and o.kind == "ok" and not any(e[1] == "Error" for e in o.errors):
+        # a line that cannot begin any statement was neither reported as unrecognised nor did it cost the file its OK!
+        line, frag = junk
+        rule = "?"
+        for info in o.seginfo:
+            if info[5] is not None and info[5] <= line:
+                rule = str(info[4])
+        rule = rule.split(".")[-1].split(" ")[0].strip("<>")
+        out("C07", f"C07:junk-line-in-ok-file:{rule}:{junk_class(frag)}",
+            f"a line consisting of {frag!r} (which cannot begin any statement) is swallowed by {rule} and the file is still OK!")
     if "C08" in props:
         for fp, what in P.wellformed_violations(o.file, text):
             out("C08", fp, what)
@@ -262,6 +298,15 @@ def run_chunk(chunk, ctx):
         for L in chunk["lens"]:
             for sp in chunk.get("sp", [""]):
                 variants.append(("ins", L, sp))
+    elif op == "replace":
+        for L in chunk["lens"]:
+            variants.append(("rep", L))
+    elif op == "junkline":
+        tl = text.split("\n")[:-1]
+        first_line = 12                     # after the 42 header and its blank line
+        variants = [("junk", j, ln, True) for j in range(chunk["group"], min(len(JUNK), chunk["group"] + 6))
+                    for ln in range(first_line, len(tl) + 1)]
+        variants += [("junk", j, len(tl), False) for j in range(chunk["group"], min(len(JUNK), chunk["group"] + 6))]
     elif op == "headcut":
         nl = text.count("\n")
         variants = [("hcut", k, keep) for k in range(0, min(nl, 16) + 1) for keep in (True, False)] + [("hmid", 3), ("hmid", 11)]
@@ -272,6 +317,20 @@ def run_chunk(chunk, ctx):
     def build(variant):
         off = offs[b]
         kind = variant[0]
+        if kind == "rep":           # the token starting at the boundary replaced by one solver-chosen lexeme
+            L = variant[1]
+            key = ("ins", L)
+            if key not in vsets:
+                vs = [Var(f"x{L}_{i}", range(128)) for i in range(L)]
+                vsets[key] = (vs, [v.domain_constraint() for v in vs] + [lexeme_constraint(vs)])
+            vs, cons = vsets[key]
+            ex.solver.add(*cons)
+            nxt_ = offs[b + 1] if b + 1 < len(offs) else len(text)
+            return list(text[:off]) + vs + list(text[nxt_:])
+        if kind == "junk":          # a junk line of its own in front of line ln (or as the last line, with / without newline)
+            tl = text.split("\n")[:-1]
+            frag, ln, nl = JUNK[variant[1]], variant[2], variant[3]
+            return list("".join(l + "\n" for l in tl[:ln]) + frag + ("\n" if nl else "") + "".join(l + "\n" for l in tl[ln:]))
         if kind == "hcut":          # the first k lines, with / without the last newline
             t = "".join(l + "\n" for l in text.split("\n")[:variant[1]])
             return list(t if variant[2] else t[:-1])
@@ -309,11 +368,16 @@ def run_chunk(chunk, ctx):
         cur["items"] = items
         src = SymStr(items) if any(not isinstance(x, str) for x in items) else "".join(items)
 
+        junk = None
+        if variants[vi][0] == "junk":
+            junk = (variants[vi][2] + 1, JUNK[variants[vi][1]])
+        cur["junk"] = junk
+
         def out(prop, fp, what):
             if prop in props:
-                col.violation(fp, what, dict(name=name, text=conc(src) if not isinstance(src, str) else src, props=sorted(props)))
+                col.violation(fp, what, dict(name=name, text=conc(src) if not isinstance(src, str) else src, props=sorted(props), junk=junk))
                 cur["viol"] = True
-        res = analyse(name, src, props, out, ref)
+        res = analyse(name, src, props, out, ref, junk=junk)
         return res
 
     def on_path(res, status):
@@ -326,7 +390,7 @@ def run_chunk(chunk, ctx):
                 col.violation("hang::" + hang_site(res.__traceback__), "the analysis does not terminate",
                               dict(name=name, text=SymStr(items).concretize(ex.model()), props=sorted(props)))
         elif status == "ok" and not cur.get("viol") and col.want_witness():
-            col.add_witness(dict(name=name, text=SymStr(items).concretize(ex.model()), props=sorted(props)), conc(res))
+            col.add_witness(dict(name=name, text=SymStr(items).concretize(ex.model()), props=sorted(props), junk=cur.get("junk")), conc(res))
 
     left = max(1.0, min(ctx.get("chunk_time", 60), ctx["deadline"] - time.time()))
     ex.explore(body, on_path=on_path, max_time=left, path_alarm=ctx.get("alarm", 8.0), max_paths=ctx.get("max_paths"))
@@ -343,5 +407,5 @@ def replay(case):
     def out(prop, fp, what):
         if prop in props:
             viol.append([fp, what])
-    digest = analyse(case["name"], case["text"], props, out, ref)
+    digest = analyse(case["name"], case["text"], props, out, ref, junk=tuple(case["junk"]) if case.get("junk") else None)
     return dict(digest=digest, violations=viol)
